@@ -19,7 +19,8 @@ pub fn boxcox(x: f64, lambda: f64) -> f64 {
     if lambda == 0. {
         x.ln()
     } else {
-        (x.powf(lambda) - 1.) / lambda
+        // x^lambda - 1 = expm1(lambda ln x): no cancellation for small |lambda ln x|
+        (lambda * x.ln()).exp_m1() / lambda
     }
 }
 
@@ -30,7 +31,7 @@ pub fn boxcox_shifted(x: f64, lambda: f64, alpha: f64) -> f64 {
     if lambda == 0. {
         (x + alpha).ln()
     } else {
-        ((x + alpha).powf(lambda) - 1.) / lambda
+        (lambda * (x + alpha).ln()).exp_m1() / lambda
     }
 }
 
